@@ -44,11 +44,11 @@ ASSUMPTIONS = [
     "inverse consistency of exp(v), exp(-v) is interpolation limited and judged as relations: error(A) <= error against the identity / 4 and error(A/2) <= 0.75 error(A) (observed ratios 0.25 .. 0.39: second order)",
     "reduction='none' on 3-D (linear) tensors raises a documented NotImplementedError: not judged",
 ]
-# vacuity guard: about half of what the quick tier measures (97 531 non-trivial cases, 59 047 outcomes); thorough is a superset
-MIN_NONTRIVIAL = {"quick": 48000, "thorough": 70000}
-MIN_OUTCOMES = {"quick": 29000, "thorough": 40000}
-MIN_SUB_TRACES = {"null1": 7500, "analytic": 18000, "null2": 3800, "affine-add": 500, "analytic2": 4400, "scale": 3700, "linear": 960,
-                  "reduce": 5900, "lame": 70, "bspline": 570, "ic-zero": 160, "ic-units": 3400, "ic-exp": 6, "reuse": 200}
+# vacuity guard: about half of what the quick tier measures (59 573 non-trivial cases, 33 217 outcomes); thorough is a superset
+MIN_NONTRIVIAL = {"quick": 29000, "thorough": 70000}
+MIN_OUTCOMES = {"quick": 16000, "thorough": 40000}
+MIN_SUB_TRACES = {"null1": 4500, "analytic": 9700, "null2": 2200, "affine-add": 270, "analytic2": 2400, "scale": 2000, "linear": 960,
+                  "reduce": 3600, "lame": 70, "bspline": 570, "ic-zero": 160, "ic-units": 3400, "ic-exp": 6, "reuse": 230}
 
 LOSS_CLASS = {
     "grad_loss": "GradLoss", "bending_loss": "Bending", "curvature_loss": "Curvature", "diffusion_loss": "Diffusion",
@@ -969,7 +969,7 @@ def shapes(D, tier):
         s = [(5, 7), (6, 5), (8, 6)]
         return s[:2] if tier == "quick" else s + [(7, 7), (5, 5), (9, 6)]
     s = [(5, 6, 7), (6, 5, 5)]
-    return s if tier == "quick" else s + [(7, 5, 6), (5, 5, 5)]
+    return s[:1] if tier == "quick" else s + [(7, 5, 6), (5, 5, 5)]
 
 
 def analytic_matrices(D, seed):
@@ -1027,7 +1027,9 @@ def cases_of(shard):
         elif tier == "quick" and D == 3:
             # quick, 3-D: every spacing form with N=2 in float64, plus (vec, N=1, f64) and (None, N=1, f32)
             combos = [(sp, 2, "f64") for sp in sps] + [("vec", 1, "f64"), ("none", 1, "f32")]
-            combos6 = list(itertools.product(sps, ["f64"]))
+            if mode in ("forward", "backward", "prewitt"):  # same code path as central / sobel up to the stencil (C12 covers the stencils)
+                combos = [("ND", 2, "f64"), ("vec", 1, "f64"), ("none", 1, "f32")]
+            combos6 = [("ND", "f64"), ("none", "f64"), ("vec", "f64")]
         elif tier == "quick":
             # quick, 2-D: complete spacing form x N product in float64, float32 on the two extreme elements
             combos = list(itertools.product(sps, (1, 2), ["f64"])) + [("vec", 2, "f32"), ("none", 1, "f32")]
@@ -1098,7 +1100,7 @@ def cases_of(shard):
                         for fl in flds:
                             for form in forms_for(dt, stride):
                                 out.append({"sub": "reduce", "cfg": c, "fn": fn, "args": args, "form": form, "fields": fl})
-                            out.append({"sub": "scale", "cfg": c, "fn": fn, "args": args, "form": "functional", "fields": fl, "cs": [-1.0, 2.0, -0.5, 3.0], "ks": [2.0, 0.5]})
+                            out.append({"sub": "scale", "cfg": c, "fn": fn, "args": args, "form": "functional", "fields": fl, "cs": [-1.0, 2.0, -0.5, 3.0] if tier == "thorough" else [-0.5, 3.0], "ks": [2.0, 0.5] if tier == "thorough" else [2.0]})
     elif kind == "reuse":
         D, mode = shard["D"], shard["mode"]
         A = {2: [5, 7], 3: [5, 6, 7]}
@@ -1201,7 +1203,7 @@ def shards(tier: str, seed: int):
             for shape in shapes(D, tier):
                 for part in PARTS:
                     out.append({"tier": tier, "seed": seed, "kind": "deriv", "D": D, "mode": mode, "shape": list(shape), "part": part, "full": tuple(shape) in fs})
-        for shape in shapes(D, tier)[: (2 if tier == "quick" else 4)]:
+        for shape in (shapes(D, "thorough")[:2] if tier == "quick" else shapes(D, tier)[:4]):
             out.append({"tier": tier, "seed": seed, "kind": "bspline", "D": D, "shape": list(shape)})
         for mode in (("default", "central", "bspline") if tier == "quick" else ALL_MODES):
             out.append({"tier": tier, "seed": seed, "kind": "reuse", "D": D, "mode": mode})
@@ -1226,8 +1228,8 @@ def bounds(tier):
         "losses": [fn_label(f, a) for f, a in FIRST_ORDER + SECOND_ORDER] + ["bspline_bending_loss"],
         "call_forms": ["functional", "module"],
         "affine_menu": {"D2": len(analytic_matrices(2, 0)), "D3": len(analytic_matrices(3, 0))},
-        "field_scales": [-1.0, 2.0, -0.5, 3.0],
-        "spacing_scales": [2.0, 0.5],
+        "field_scales": [-1.0, 2.0, -0.5, 3.0] if tier == "thorough" else [-0.5, 3.0],
+        "spacing_scales": [2.0, 0.5] if tier == "thorough" else [2.0],
         "elastic_materials": 4,
         "elastic_pairs": len(E.pairs()) * 2,
         "ic_grids": {"D2": len(IC_GRIDS[2]), "D3": len(IC_GRIDS[3])},
